@@ -11,7 +11,7 @@ LayoutPair.lean).  Model: Model/Layout.lean ⇄
     split_off_ppf1).
 Glyph ids are `Nat`s; every theorem about real tables assumes them `< 65536` (they are `u16`).
 -/
-import FontVerif.Lemmas.LayoutDev
+import FontVerif.Lemmas.LayoutBuilder
 set_option linter.unusedVariables false
 namespace FontVerif.C16
 open FontVerif FontVerif.Layout
@@ -282,6 +282,54 @@ theorem ppf1_split_heuristic_preserves {V : Type} (t : PairPos1 V) (hwf : t.cov.
     (pw.imp (fun h => Nat.le_of_lt h)) (by rw [hl, hsz])
   exact ⟨ts, a, c⟩
 
+/-! ## PairPosBuilder: glyph pairs are kept, first rule wins, and they shadow later subtables -/
+
+/-- **glyph_pair_first_rule_wins.**  Feed ANY sequence of `insert_pair(g1, v, g2, ..)` rules
+(first glyphs < 65536; any values, any value-format keys `fmt v`, repeated pairs, any order) to the
+glyph-pair half of `PairPosBuilder`.  `GlyphPairPosBuilder::build` distributes the pairs over one
+PairPos format 1 subtable per value-format key; for EVERY glyph pair the first-match lookup over
+those subtables yields the value of the FIRST rule inserted for that pair — whatever that value is,
+in particular also when it is all zero: no rule is dropped — and nothing when there is no rule. -/
+theorem glyph_pair_first_rule_wins {V : Type} (fmt : V → Nat) (rules : List ((Nat × Nat) × V))
+    (hb : ∀ r ∈ rules, r.1.1 < 65536) (g1 g2 : Nat) :
+    firstMatch (buildGlyphPairs fmt (GlyphPairs.ofRules rules)) g1 g2 =
+      (rules.find? (fun r => r.1.1 == g1 && r.1.2 == g2)).map (·.2) := by
+  obtain ⟨hu, hf, hm⟩ := ofRules_spec rules
+  rw [buildGlyphPairs_lookup fmt _ hu (fun e he => hb e (hm e he)) g1 g2, hf g1 g2]
+  rfl
+
+/-- **explicit_pair_shadows_later_subtables.**  `PairPosBuilder::build` emits the glyph-pair
+subtables BEFORE the class-pair subtables (`out = pairs.build(); out.extend(classes.build())`).
+So whenever the first rule inserted for `(g1, g2)` has value `v` — e.g. the explicit zero of
+`pos A V 0;` — the first-match result over the whole lookup is `v`, whatever subtables `later`
+follow (in particular a class rule `pos @A @V -50;` covering the same glyphs cannot apply). -/
+theorem explicit_pair_shadows_later_subtables {V : Type} (fmt : V → Nat)
+    (rules : List ((Nat × Nat) × V)) (hb : ∀ r ∈ rules, r.1.1 < 65536) (g1 g2 : Nat) (v : V)
+    (hfirst : (rules.find? (fun r => r.1.1 == g1 && r.1.2 == g2)).map (·.2) = some v)
+    (later : List (Nat → Nat → Option V)) :
+    (((buildGlyphPairs fmt (GlyphPairs.ofRules rules)).map (fun t => t.lookup)) ++ later).findSome?
+      (fun look => look g1 g2) = some v := by
+  have h := glyph_pair_first_rule_wins fmt rules hb g1 g2
+  rw [hfirst] at h
+  unfold firstMatch at h
+  rw [List.findSome?_append, List.findSome?_map]
+  have : ((fun look : Nat → Nat → Option V => look g1 g2) ∘ fun t : PairPos1 V => t.lookup) =
+      fun t => t.lookup g1 g2 := rfl
+  rw [this, h]
+  rfl
+
+/-- no rule for a pair: the glyph-pair subtables yield nothing (the lookup falls through) -/
+theorem glyph_pair_no_rule_nothing {V : Type} (fmt : V → Nat) (rules : List ((Nat × Nat) × V))
+    (hb : ∀ r ∈ rules, r.1.1 < 65536) (g1 g2 : Nat) (hno : ∀ r ∈ rules, r.1 ≠ (g1, g2)) :
+    firstMatch (buildGlyphPairs fmt (GlyphPairs.ofRules rules)) g1 g2 = none := by
+  rw [glyph_pair_first_rule_wins fmt rules hb g1 g2]
+  have : rules.find? (fun r => r.1.1 == g1 && r.1.2 == g2) = none := by
+    rw [List.find?_eq_none]
+    intro r hr hk
+    simp only [Bool.and_eq_true, beq_iff_eq] at hk
+    exact hno r hr (Prod.ext hk.1 hk.2)
+  rw [this]; rfl
+
 /-! ## PairPos format 2 splitting -/
 
 /-- **ppf2_split_preserves.**  Take ANY PairPos format 2 subtable with a well-formed coverage table
@@ -467,6 +515,14 @@ example :
       some [(.fmt1 [1], .fmt2 [], [[0, 10]]),
             (.fmt1 [2, 3, 4], .fmt1 4 [1], [[0, 11], [0, 12]])] := by
   decide +kernel
+/-- `pos A V 0; pos A V 7; pos A W 5;` (value = (format key, amount)): the explicit zero is the
+first rule for (10, 20) and is what the compiled glyph subtables answer; hypotheses satisfiable -/
+example :
+    firstMatch (buildGlyphPairs (·.1) (GlyphPairs.ofRules [((10, 20), (4, 0)), ((10, 20), (4, 7)), ((10, 21), (5, 5))]))
+      10 20 = some (4, 0) := by
+  rw [glyph_pair_first_rule_wins _ _ (by decide)]; decide
+example : GlyphPairs.ofRules [((10, 20), (4, 0)), ((10, 20), (4, 7)), ((10, 21), (5, 5))] =
+    [((10, 20), (4, 0)), ((10, 21), (5, 5))] := by decide
 /-- a graph-level PairPos format 2 split with device offsets: 3 class-1 records × 2 class-2 records;
 record 1 / record 2 device patterns differ per cell, object ids 101.. in writing order, one object
 (104) shared.  All hypotheses of `ppf2_split_preserves_devices` hold, and e.g. the cell (class 1,
